@@ -353,3 +353,58 @@ def rule_op_registration(P):
 
 
 RULES = [rule_forest_dtor, rule_unregister, rule_registry, rule_library, rule_entry_types, rule_factory_remove, rule_op_registration]
+
+
+
+M = "MEDDLY::"
+
+
+def rule_copy_memberwise(P):
+    """copy constructors and copy assignments that copy member by member take each member from the member of the same name of the source
+    (variable_order's two maps, minterm's domain and kind, …): `var2level.assign(order.level2var…)` compiles and is right for every
+    order that is its own inverse"""
+    import re
+    R = RuleResult("life.copy-memberwise", "in every copy constructor / copy assignment, a member that is copied from the source object is copied from the source's member of the same name")
+    seen = set()
+    for f in sorted(P.fns.values(), key=lambda f: (f["file"], f["line"], f["inst"])):
+        if not f.get("cfg") or (f["file"], f["line"]) in seen:
+            continue
+        ps = f.get("params", [])
+        nm = f["q"].split("::")[-1]
+        cls = f.get("cls") or ""
+        if len(ps) != 1 or not (f.get("ctor") or nm == "operator=") or not cls:
+            continue
+        if not re.search(r"const\s+(class\s+|struct\s+)?%s\s*&" % re.escape(cls), f.get("sig", "")):
+            continue
+        seen.add((f["file"], f["line"]))
+        p_ = re.escape(ps[0]["name"])
+        pairs = []
+        for b in f["cfg"]["blocks"]:
+            for e in b["ev"]:
+                if e["k"] == "store":
+                    m = re.fullmatch(r"%s(?:\.|->)(\w+)" % p_, re.sub(r"\s+", "", e.get("rhs", "")))
+                    if m:
+                        pairs.append((e["member"].split("::")[-1], m.group(1), e["line"]))
+                elif e["k"] == "init" and e.get("member"):
+                    m = re.fullmatch(r"%s(?:\.|->)(\w+)" % p_, re.sub(r"\s+", "", e.get("text", "")))
+                    if m:
+                        pairs.append((e["member"], m.group(1), e["line"]))
+                elif e["k"] == "call":
+                    m1 = re.fullmatch(r"this->(\w+)", str(e.get("recv") or ""))
+                    if m1:
+                        for a in e.get("args") or []:
+                            for m in re.finditer(r"(?<!\w)%s(?:\.|->)(\w+)(?=\.(?:begin|end|data|size)\(\)|$)" % p_, re.sub(r"\s+", "", a)):
+                                pairs.append((m1.group(1), m.group(1), e["line"]))
+        if not pairs:
+            continue
+        R.functions.add(f["inst"])
+        for dst, src, line in sorted(set(pairs)):
+            R.paths += 1
+            iid = "%s%s: %s ← source.%s" % (base_name(f["q"]).replace(M, ""), f["sig"][:30], dst, src)
+            if dst == src:
+                R.ok(iid, where(f, line))
+            else:
+                R.fail(iid, where(f, line), Finding(R.rule, f["file"], base_name(f["q"]), "%s<-%s" % (dst, src),
+                       "member `%s` of the copy is filled from the source's `%s`: the copy is wrong whenever the two differ" % (dst, src), line))
+    R.require_floor(5, "member-wise copies")
+    return R
